@@ -18,6 +18,7 @@ def run(ctx):
                                              rule="implementation half of k_schedules: every request has the same value in every permutation / shared-input computation",
                                              samples=[], failures=t.get("impl_failures", [])))
     ctx.oracle("o_schedules_block_diagonalize", k_schedules.oracle_schedules_bd)
+    ctx.oracle("o_caller_dict", k_schedules.oracle_caller_dict)
     return ctx.finish(lambda f: None)
 
 
